@@ -165,7 +165,10 @@ func genMatcher(r *ref.R, depth int) *mspec {
 	}
 	switch {
 	case x < 2:
-		return &mspec{kind: "hosts", domains: ref.Pick(r, [][]string{{"a.com"}, {"b.com", "{sub}.example.com"}, {"a.com", "b.com"}, {"{sub}.example.com"}, {"::1", "b.com"}, {"fe80::1", "::1"}, {"über.example.com", "b.com"}, {"{sub}.example.com", "über.example.com"}})}
+		return &mspec{kind: "hosts", domains: ref.Pick(r, [][]string{{"a.com"}, {"b.com", "{sub}.example.com"}, {"a.com", "b.com"}, {"{sub}.example.com"}, {"::1", "b.com"}, {"fe80::1", "::1"}, {"über.example.com", "b.com"}, {"{sub}.example.com", "über.example.com"},
+			// more than four sibling nodes: the domain tree switches to its first-byte index
+			{"api.example.com", "api.example.net", "blog.example.com", "cdn.example.com", "docs.example.com", "mail.example.com", "{sub}.example.org"},
+			{"{sub}.example.org", "api.example.org", "app.example.org", "b.com", "cdn.example.org", "docs.example.org", "a.com"}})}
 	case x < 4:
 		return &mspec{kind: "pathver", param: ref.Pick(r, []string{"pv", "", "ver"}), versions: ref.Pick(r, [][]string{{"v1"}, {"v2", "v1"}, {"v1/v1"}, {"v2"}, {"v1", "v2", "v10", "v11"}, {"v1", "v1beta", "v2"}, {"v10", "v1"}})}
 	case x < 5:
@@ -190,7 +193,7 @@ type grouter struct {
 }
 
 var c13Patterns = []string{"/x", "/{p}/y", "/v1/x", "/v1/{p}/y"}
-var c13Hosts = []string{"a.com", "b.com", "x.example.com", "zz.org", "A.com:80", "[::1]", "[::1]:8080", "[FE80::1]", "b.com:", "Über.example.com", "über.example.com:8080", "ÄRZTE.Example.com"}
+var c13Hosts = []string{"a.com", "b.com", "x.example.com", "zz.org", "A.com:80", "[::1]", "[::1]:8080", "[FE80::1]", "b.com:", "Über.example.com", "über.example.com:8080", "ÄRZTE.Example.com", "api.example.org", "api.example.net", "blog.example.org", "apx.example.org", "www.example.org:443"}
 var c13Paths = []string{"/x", "/v1/x", "/v2/x", "/v1/v1/x", "/7/y", "/v1/7/y", "/v2/v1/x", "/nothing", "/v1", "/v1/", "/v10/x", "/v11/7/y", "/v1beta/x", "/v10/v1/x", "/v111/x"}
 var c13Accepts = []string{"", "application/json;version=1", "text/html;version=2", "a/b;version=3"}
 
